@@ -2,7 +2,7 @@
 
 PROP = {
     "engines": ["hist"],
-    "lean_modules": ["AxVerif.Model.Db", "AxVerif.Lemmas.Db"],
+    "lean_modules": ["AxVerif.Model.Db", "AxVerif.Lemmas.Db", "AxVerif.Lemmas.DbSim", "AxVerif.Lemmas.DbHist", "AxVerif.Driver.Hist"],
     "rule": "same engine and case format as C04; the C03 families (tag `c03`) put a failing statement (duplicate key, NOT NULL, type "
             "error, unknown table / column, wrong arity; multi-row INSERT failing on its first or on a later row) at every position of "
             "a session program that then commits, rolls back or is dropped, fail autocommit statements and batches at every position, "
@@ -12,7 +12,9 @@ PROP = {
         "as C04",
         "DDL inside the rolled-back transaction (created / dropped objects) is C15's part of this property; the catalog is static here",
     ],
-    "partial": "",
+    "partial": "abort_erases at history level is proved for a session none of whose transactions commits (abort_erases_partial); the "
+               "statement for a single non-committing transaction of a session that also commits others (abort_erases_statement) is "
+               "stated, not proved. The store-level theorems (abort_erases_store, abort_erases_store_fresh) are unrestricted.",
     "trusted": ["one history is executed from a single thread"],
 }
 
